@@ -555,7 +555,7 @@ func init() {
 			"larger sections (n up to 5000) with sampled fault positions; AtToWriter(w, off) driven with Write histories. Non-trivial+distinct = hash of (plan, history) with >= 2 ops + distinct (op, cursor relation, truncation, fault, outcome) transitions.",
 		Assumptions: []string{"offsets kept within +-2^40 so int64 wrap-around (unspecified) is never exercised", "WriteAt with a negative offset: only 'nothing written, count 0' is asserted (the statement does not name the error)",
 			"underlying writer: a device that refuses bytes by absolute position or by total quota; its error wins over io.ErrShortWrite"},
-		Flavours: releaseThenGo126,
+		Flavours: releaseAnd386,
 		Required: []string{"write/inside", "write/last-byte", "write/at-end", "write/beyond-end", "write/truncated", "write/empty-buffer", "writeat/at-or-beyond-end", "writeat/truncated", "writeat/ends-exactly-at-limit",
 			"writeat/negative-offset", "seek/whence=0", "seek/whence=1", "seek/whence=2", "seek/invalid-whence", "seek/before-start", "seek/beyond-end", "fault/hit-in-Write", "fault/hit-in-WriteAt", "fault/late-error-style",
 			"section/n=0", "attowriter", "write-after-seek", "write-after-partial-write", "section/ends-at-MaxInt64", "writeat/offset=MaxInt64", "underlying/*os.File", "underlying/*SectionWriter", "underlying/*SectionWriter/inner-reaches-beyond-outer", "attowriter/over-a-SectionWriter", "attowriter/owner-moves-its-cursor", "attowriter/two-views-of-one-file", "writeat/parallel-on-disjoint-ranges", "seek/target-not-representable", "attowriter/asserted-to-Seeker"},
